@@ -137,6 +137,7 @@ def _parse_datetime_scenarios(ctx):
         "2023-05-06 13:14:15": {1: "2023", 2: "-", 3: "05", 4: "-", 5: "06", 6: "13", 7: "14", 8: "15"},
         "2023:05:06 00:00:00": {1: "2023", 2: ":", 3: "05", 4: ":", 5: "06", 6: "00", 7: "00", 8: "00"},
         "2023-05-06 25": {1: "2023", 2: "-", 3: "05", 4: "-", 5: "06", 6: "25"},
+        "2023-12-31": None, "2023-04-30 7": None, "2023-10-31 23:59": None, "1999-1-9": None,
         "last friday": None, "1 hour ago": None, "x": None,
     }
     # the capture groups are those of the DATE_REGEX literal of the analysed tree, matched on the scenario text (the literal
@@ -246,6 +247,8 @@ def r2(ctx):
         "2023-05-06": ((d, 0, 0, 0), (d, 23, 59, 59)), "2023-05-06 13": ((d, 13, 0, 0), (d, 13, 59, 59)),
         "2023-05-06 13:14": ((d, 13, 14, 0), (d, 13, 14, 59)), "2023-05-06 13:14:15": ((d, 13, 14, 15), (d, 13, 14, 15)),
         "2023:05:06 00:00:00": ((d, 0, 0, 0), (d, 0, 0, 0)), "2023-05-06 25": "error",
+        "2023-12-31": (((2023, 12, 31), 0, 0, 0), ((2023, 12, 31), 23, 59, 59)), "2023-04-30 7": (((2023, 4, 30), 7, 0, 0), ((2023, 4, 30), 7, 59, 59)),
+        "2023-10-31 23:59": (((2023, 10, 31), 23, 59, 0), ((2023, 10, 31), 23, 59, 59)), "1999-1-9": (((1999, 1, 9), 0, 0, 0), ((1999, 1, 9), 23, 59, 59)),
         "last friday": (("friday", 0, 0, 0), ("friday", 23, 59, 59)), "1 hour ago": (("today+0", 11, 30, 45), ("today+0", 11, 30, 45)), "x": "error",
     }
     n = 0
@@ -339,6 +342,7 @@ RULES = [
      lambda ctx: __import__("c10").r1(ctx, only=lambda s: s.fn.startswith("util::datetime::") or s.fn == "function::Variant::to_datetime", rule_prefix="date-")),
     ("X-DATEALIKE", "date look-ahead of the lexer (regex, year and month ranges)", lambda ctx: __import__("extra").looks_like_date_rule(ctx)),
     ("X-OPERANDS", "each operand of a comparison is evaluated afresh (no memo shared between operands or conditions: a remembered value comes back as text) [shared]", lambda ctx: __import__("conf").operands_evaluated_afresh(ctx)),
+    ("X-VARIANT", "Variant constructors keep the value they are given (a time is not rounded) [shared]", lambda ctx: __import__("extra").variant_constructors(ctx)),
 ]
 
 EXPLANATION = (
